@@ -213,3 +213,22 @@ def _load_seeded():
 
 
 _load_seeded()
+
+
+# ---------------------------------------------------------------------------- preserving refactors kept as patches
+def _load_preserving():
+    import json, os
+    root = os.path.join(os.path.dirname(os.path.dirname(os.path.abspath(__file__))), 'preserving')
+    if not os.path.isdir(root):
+        return
+    for sid in sorted(os.listdir(root)):
+        mp = os.path.join(root, sid, 'meta.json')
+        pp = os.path.join(root, sid, 'patch.diff')
+        if not (os.path.exists(mp) and os.path.exists(pp)):
+            continue
+        m = json.load(open(mp))
+        for prop in m.get('props', []):
+            VARIANTS.append({'id': f'keep-{sid}', 'prop': prop, 'kind': 'preserve', 'edits': [], 'patch': pp, 'expect': None})
+
+
+_load_preserving()
